@@ -1,6 +1,6 @@
 (* C12: each switch rejects exactly the scripts with its defect; each limit exactly the
    scripts whose figure exceeds it. *)
-From Coq Require Import List Bool NArith Lia.
+From Coq Require Import List Bool NArith Lia MSetPositive MSetProperties.
 Import ListNotations.
 From Verif Require Import ValidateModel ValidateSpec ValidateProofs ValidateAccept.
 Local Open Scope N_scope.
@@ -23,10 +23,37 @@ Proof.
   - intros H. rewrite (nodup_fixed_point dec H). reflexivity.
 Qed.
 
+Module PSP := MSetProperties.WProperties PositiveSet.
+
+Lemma succ_pos_inj a b : N.succ_pos a = N.succ_pos b -> a = b.
+Proof.
+  intros H. apply N.succ_inj. rewrite <- !N.succ_pos_spec. rewrite H. reflexivity.
+Qed.
+
+Lemma key_set_in ids i : PositiveSet.In (N.succ_pos i) (key_set ids) <-> In i ids.
+Proof.
+  induction ids as [|a l IH]; simpl.
+  - split; [intros H; exact (PositiveSet.empty_spec H)|tauto].
+  - rewrite PositiveSet.add_spec, IH. split.
+    + intros [H|H]; [left; symmetry; apply succ_pos_inj; exact H|right; exact H].
+    + intros [H|H]; [left; rewrite H; reflexivity|right; exact H].
+Qed.
+
+Lemma key_set_cardinal ids :
+  PositiveSet.cardinal (key_set ids) = length (nodup N.eq_dec ids).
+Proof.
+  induction ids as [|a l IH]; simpl.
+  - apply PSP.empty_cardinal.
+  - destruct (in_dec N.eq_dec a l) as [i|n].
+    + rewrite PSP.add_cardinal_1; [exact IH|]. apply key_set_in; exact i.
+    + rewrite PSP.add_cardinal_2; [simpl; rewrite IH; reflexivity|].
+      intros H. apply n. apply key_set_in; exact H.
+Qed.
+
 Theorem has_repeated_keys_iff s :
   has_repeated_keys s = true <-> ~ NoDup (map k_id (all_keys (s_nodes s))).
 Proof.
-  unfold has_repeated_keys. rewrite negb_true_iff, N.eqb_neq.
+  unfold has_repeated_keys. rewrite negb_true_iff, N.eqb_neq, key_set_cardinal.
   rewrite <- (nodup_length_iff N.eq_dec).
   split; intros H E; apply H.
   - rewrite E. reflexivity.
